@@ -217,6 +217,13 @@ Expected == CASE mode = "in" -> InOrder(oleft, oright, root)
               [] mode = "pre" -> PreOrder(oleft, oright, root)
               [] mode \in {"post", "free"} -> PostOrder(oleft, oright, root)
               [] mode = "list" -> ListOrder(oleft, oright, islist, root)
+(* bintree_iterate_complete: an iteration abandoned midway is run to its end in one call (while (bintree_next(it)) ;).   *)
+(* Stated by its outcome - what OrderMatchesRecursive and RestoredAtCompletion say of every run of the step actions that *)
+(* reaches "done": the rest of the traversal has been visited, every link is as it was, a further bintree_next is NULL.  *)
+Complete == /\ mode # "free" /\ phase \in {"run", "done"}
+            /\ phase' = "done" /\ left' = oleft /\ right' = oright /\ tag' = [i \in 1..MaxNodes |-> 0]
+            /\ out' = Expected /\ ret' = 0 /\ itCurr' = 0
+            /\ UNCHANGED <<n, root, islist, oleft, oright, mode, itParent, itKind, freed, bad>>
 IsPrefix(a, b) == Len(a) <= Len(b) /\ \A i \in 1..Len(a) : a[i] = b[i]
 (* each node exactly once, in the order of the recursive traversal *)
 OrderMatchesRecursive == IsPrefix(out, Expected) /\ (phase = "done" => out = Expected)
